@@ -34,6 +34,90 @@ type gen struct {
 	lastAnn   bool       // ... and whether it began with a type annotation
 	tdepth    int        // nesting of the type being emitted (type arguments of type arguments ...)
 	lastUse   *declared  // the primary emitted last is this declared variable (nil: it is something else)
+	// added by the checklist audit (zero value = the plain variant)
+	maxDepth     int      // depth limit of the structure (0 = the usual 9); a deep unit nests anonymous / local / named types and lambdas in each other
+	nest         []string // the enclosing structural containers, outermost first: named | anonymous | enumConstantBody | local | lambda | interface
+	sep          string   // what separates two tokens in the rendered text ("" = one blank)
+	lead         string   // white space in front of the first token
+	trail        string   // white space after the last token (before a comment that ends the file)
+	manyDone     bool     // the unit already has its long list
+	chainDone    bool     // the unit already has its chain of nested types
+	stereotype   bool     // the modifiers emitted last hold @Component / @Repository / @Service
+	pendingLocal bool     // the type declaration that follows is a local one
+	comboDone    bool     // the unit already has its combination of nested containers
+}
+
+// enter records that a structural container begins and labels the combination with the containers around it.
+func (g *gen) enter(kind string) {
+	named, anon, lambda := 0, 0, 0
+	for _, k := range g.nest {
+		switch k {
+		case "named", "local", "interface":
+			named++
+		case "anonymous", "enumConstantBody":
+			anon++
+		case "lambda":
+			lambda++
+		}
+	}
+	last := ""
+	if len(g.nest) > 0 {
+		last = g.nest[len(g.nest)-1]
+	}
+	switch kind {
+	case "named", "interface", "local":
+		switch {
+		case named == 2:
+			g.use("nesting.namedDepth3")
+		case named == 3:
+			g.use("nesting.namedDepth4")
+		case named > 3:
+			g.use("nesting.namedDepth5orMore")
+		}
+		if anon > 0 {
+			g.use("nesting.namedInAnonymous")
+		}
+		if lambda > 0 {
+			g.use("nesting.namedInLambda")
+		}
+		if kind == "interface" && named > 0 {
+			g.use("nesting.interfaceInType")
+		}
+	case "anonymous", "enumConstantBody":
+		switch {
+		case anon == 1:
+			g.use("nesting.anonymousInAnonymous")
+		case anon > 1:
+			g.use("nesting.anonymousDepth3orMore")
+		}
+		if lambda > 0 {
+			g.use("nesting.anonymousInLambda")
+		}
+		if last == "local" {
+			g.use("nesting.anonymousInLocal")
+		}
+	case "lambda":
+		switch {
+		case lambda == 1:
+			g.use("nesting.lambdaInLambda")
+		case lambda > 1:
+			g.use("nesting.lambdaDepth3orMore")
+		}
+		if anon > 0 {
+			g.use("nesting.lambdaInAnonymous")
+		}
+	}
+	g.nest = append(g.nest, kind)
+}
+
+func (g *gen) leave() { g.nest = g.nest[:len(g.nest)-1] }
+
+// limit is the nesting depth up to which alternatives other than the plainest are drawn.
+func (g *gen) limit() int {
+	if g.maxDepth > 0 {
+		return g.maxDepth
+	}
+	return 9
 }
 
 // declared is a variable the unit has declared: a use site may name it instead of a name from the pool,
@@ -191,7 +275,7 @@ func (g *gen) chance(pct int) bool {
 
 // pickW draws an index with the given weights; out of fuel or too deep it returns 0.
 func (g *gen) pickW(w ...int) int {
-	if g.fuel <= 0 || g.depth > 9 {
+	if g.fuel <= 0 || g.depth > g.limit() {
 		return 0
 	}
 	total := 0
@@ -229,7 +313,7 @@ func (g *gen) pickT(w ...int) int {
 	return 0
 }
 
-func (g *gen) rich() bool { return g.fuel > 0 && g.depth <= 9 }
+func (g *gen) rich() bool { return g.fuel > 0 && g.depth <= g.limit() }
 
 func (g *gen) use(label string) { g.labels[label]++ }
 
@@ -269,7 +353,11 @@ func (g *gen) render() string {
 			tk = tk[1:]
 		}
 		if !glued && !nl {
-			sb.WriteByte(' ')
+			if g.sep != "" {
+				sb.WriteString(g.sep)
+			} else {
+				sb.WriteByte(' ')
+			}
 		}
 		sb.WriteString(tk)
 		nl = strings.HasSuffix(tk, "\n")
@@ -296,6 +384,7 @@ func (g *gen) render() string {
 	case 4:
 		text = strings.ReplaceAll(text, "\n", "\r")
 	}
+	text = g.lead + text + g.trail
 	if g.eofComment != "" {
 		if text != "" && !strings.HasSuffix(text, "\n") && !strings.HasSuffix(text, "\r") {
 			text += " "
@@ -326,6 +415,74 @@ func (g *gen) layoutAndTail() {
 		g.use("hidden.commentAtEndOfFile")
 		g.eofComment = strings.TrimSuffix(commentShapes[g.n(len(commentShapes))], "\n")
 	}
+	// added by the checklist audit, each behind its own draw: what separates the tokens, white space around the
+	// text, one very long line
+	switch rapid.IntRange(0, 24).Draw(g.t, "spacing") {
+	case 20:
+		g.use("layout.tabs")
+		g.sep = "\t"
+	case 21:
+		g.use("layout.runsOfBlanks")
+		g.sep = "     "
+	case 22:
+		g.use("layout.formFeed")
+		g.sep = "\f"
+	case 23:
+		g.use("layout.mixedWhiteSpace")
+		g.sep = " \t \f "
+	case 24:
+		g.use("layout.blankLinesBetweenTokens")
+		g.sep = "\n\n"
+	}
+	switch rapid.IntRange(0, 19).Draw(g.t, "edges") {
+	case 17:
+		g.use("layout.leadingBlankLines")
+		g.lead = []string{"\n", "\n\n\n", " \t\n", "\r\n\r\n", "\f\n  "}[g.n(5)]
+	case 18:
+		g.use("layout.trailingWhiteSpace")
+		g.trail = []string{"\n\n", "  ", "\t\n \n", "\r\n\r\n", "\f"}[g.n(5)]
+	case 19:
+		g.use("layout.leadingBlankLines")
+		g.use("layout.trailingWhiteSpace")
+		g.lead, g.trail = "\n\n", "\n\n\n"
+	}
+	if rapid.IntRange(0, 29).Draw(g.t, "longLine") == 29 {
+		// a line longer than the usual buffer sizes (4096, 65536 bytes), as comment in front of the unit
+		n := []int{4200, 66000}[g.pick2(3, 1)]
+		switch g.n(4) {
+		case 0:
+			g.use("layout.veryLongLine")
+			g.lead += "// " + strings.Repeat("x", n) + "\n"
+		case 1:
+			g.use("layout.veryLongLine")
+			g.lead += "// TODO " + strings.Repeat("long ", n/5) + "\n"
+		case 2:
+			g.use("layout.veryLongLine")
+			g.lead += "/* " + strings.Repeat("y", n) + " */\n"
+		case 3:
+			g.use("layout.veryLongLine")
+			g.lead += "// TODO(" + strings.Repeat("a", n) + ") x\n"
+		}
+		if n > 65536 {
+			g.use("layout.veryLongLine.over64k")
+		}
+	}
+}
+
+// pick2 draws an index with the given weights whatever the fuel and depth are (layout and project draws).
+func (g *gen) pick2(w ...int) int {
+	total := 0
+	for _, x := range w {
+		total += x
+	}
+	r := rapid.IntRange(0, total-1).Draw(g.t, "w2")
+	for i, x := range w {
+		if r < x {
+			return i
+		}
+		r -= x
+	}
+	return 0
 }
 
 // ---------------------------------------------------------------------------------------
@@ -333,11 +490,21 @@ func (g *gen) layoutAndTail() {
 
 var (
 	lowerNames = []string{"a", "b", "x", "foo", "bar", "value", "i", "it", "$v", "_u", "x1", "getName", "setName", "isOk", "nullable", "get", "set", "is", "main", "test", "of", "переменная", "ünï", "变量", "𝒳y", "ſ", "émile",
-		"getter", "settle", "issue", "get1", "get_", "getX", "setX", "isX", "ge", "se", "g", "$", "$$", "$get", "_set", "gett", "sets", "iss", "ping", "pong", "serve", "handle", "run", "toString", "equals", "hashCode", "length", "out", "println"}
+		"getter", "settle", "issue", "get1", "get_", "getX", "setX", "isX", "ge", "se", "g", "$", "$$", "$get", "_set", "gett", "sets", "iss", "ping", "pong", "serve", "handle", "run", "toString", "equals", "hashCode", "length", "out", "println",
+		// added by the checklist audit: names that contain the words the tool looks for in expression texts, case variants of type names, a very long name
+		"mythis", "xsuper", "Foo", "FOO", "nbAlpha", "todo", longLowerName}
 	upperNames = []string{"A", "B", "Foo", "Bar", "T", "Outer", "String", "Object", "List", "E", "Ünï", "Класс", "漢字", "Ω", "Élan", "$T", "_K", "İ",
-		"NbAlpha", "NbOmega", "NbService", "Test", "Tests", "FooTest", "Util", "StringUtils", "FooService", "Get", "Set", "System", "Thread", "X", "$", "Z9"}
+		"NbAlpha", "NbOmega", "NbService", "Test", "Tests", "FooTest", "Util", "StringUtils", "FooService", "Get", "Set", "System", "Thread", "X", "$", "Z9",
+		// added by the checklist audit: case variants of variable names, names of the annotations the tool looks for, a very long name
+		"foo", "FOO", "This", "Super", "Override", "RestController", longUpperName}
 	ctxKeywords = []string{"module", "open", "requires", "exports", "opens", "to", "uses", "provides", "with", "transitive", "yield", "sealed", "permits", "record", "var"}
 	pkgParts    = []string{"a", "b", "com", "example", "util", "x1", "пакет", "to", "open", "with", "zz", "nb", "test", "java", "lang"}
+)
+
+// a name longer than any fixed-size buffer one might think of (300 characters)
+var (
+	longLowerName = "a" + strings.Repeat("VeryLongName", 25)
+	longUpperName = "A" + strings.Repeat("veryLongName", 25)
 )
 
 // lname is a variable / field / method / parameter name in a declaring position or after '.'
@@ -406,6 +573,8 @@ var (
 	textBlocks = []string{
 		"\"\"\"\n   hello\n   \"\"\"", "\"\"\"\n\"\"\"", "\"\"\" \t\n  a \"quoted\" \\\" b\n  \"\"\"", "\"\"\"\n  é漢字 \\n \\\n  x\"\"\"",
 		"\"\"\"\n  // TODO in text\n  /* x */\n  \"\"\"", "\"\"\"\n  line #\n  # \n  \"\"\"", "\"\"\"\n  a ' b `c`\n  \"\"\"",
+		// added by the checklist audit: lines that look like comments of the todo scan's lexer, with every marker shape; an unbalanced backtick; a comment opener without end
+		"\"\"\"\n  # TODO: in text\n  #FIXME(bob) x\n  #TODO\n  #\n  \"\"\"", "\"\"\"\n  # todo(a\n  ## FIXME ()\n  #\t\n  \"\"\"", "\"\"\"\n  one ` backtick\n  \"\"\"", "\"\"\"\n  /* TODO opened in text\n  \"\"\"", "\"\"\"\n  //\n  //TODO\n  // FIXME(\n  \"\"\"",
 	}
 )
 
@@ -497,9 +666,16 @@ func (g *gen) annotation(alt bool) (usedAlt bool) {
 		g.w("@")
 		if g.pickW(5, 1) == 1 {
 			g.use("annotation.qualified")
-			g.qualifiedName(2)
-			g.glue(".")
-			g.glue(g.tname())
+			if g.spring && g.chance(35) {
+				// a name the tool reacts to, written with its package
+				g.use("annotation.qualifiedFrameworkName")
+				g.frameworkPackage()
+				g.glue(frameworkAnnotations[g.n(len(frameworkAnnotations))])
+			} else {
+				g.qualifiedName(2)
+				g.glue(".")
+				g.glue(g.tname())
+			}
 		} else {
 			if g.spring && g.pickW(1, 3) == 1 {
 				g.use("annotation.frameworkName")
@@ -536,12 +712,30 @@ func (g *gen) annotation(alt bool) (usedAlt bool) {
 	return usedAlt
 }
 
+// frameworkPackage emits the package of the framework annotations, glued to the `@` before it and with the dot after it
+func (g *gen) frameworkPackage() {
+	for _, part := range [][]string{{"org", "springframework", "web", "bind", "annotation"}, {"org", "springframework", "stereotype"}, {"org", "junit"}, {"spring"}}[g.n(4)] {
+		g.glue(part)
+		g.glue(".")
+	}
+}
+
 // frameworkMapping: a request-mapping annotation with an arbitrary (valid) argument form
 func (g *gen) frameworkMapping() {
 	g.use("annotation.frameworkName")
 	g.w("@")
-	g.glue([]string{"RequestMapping", "GetMapping", "PostMapping", "PutMapping", "DeleteMapping"}[g.pickW(3, 2, 1, 1, 1)])
-	switch g.pickW(2, 4, 4) {
+	if g.chance(12) {
+		g.use("annotation.qualified")
+		g.use("annotation.qualifiedFrameworkName")
+		g.frameworkPackage()
+	}
+	name := []string{"RequestMapping", "GetMapping", "PostMapping", "PutMapping", "DeleteMapping"}[g.pickW(3, 2, 1, 1, 1)]
+	g.glue(name)
+	form := g.pickW(2, 4, 4)
+	if name == "RequestMapping" && form == 1 && g.chance(40) {
+		form = 2 // @RequestMapping(value = "/p", method = RequestMethod.GET) is the usual way to write it
+	}
+	switch form {
 	case 0:
 		g.use("annotation.marker")
 	case 1:
@@ -557,13 +751,55 @@ func (g *gen) frameworkMapping() {
 			if i > 0 {
 				g.w(",")
 			}
-			g.w([]string{"value", "method", "path", "produces"}[g.n(4)], "=")
-			if g.pickW(2, 1) == 1 {
+			key := []string{"value", "method", "path", "produces"}[g.n(4)]
+			if name == "RequestMapping" && g.chance(40) {
+				key = "method"
+			}
+			g.w(key, "=")
+			alt := g.pickW(3, 2, 3)
+			if key == "method" && alt == 0 && g.chance(50) {
+				alt = 1 + g.n(2) // the verb is a RequestMethod constant or an array of them rather than any element value
+			}
+			switch alt {
+			case 1:
 				g.use("elementValue.qualifiedConstant")
 				g.w("RequestMethod")
 				g.glue(".")
 				g.glue([]string{"GET", "POST", "PUT", "DELETE", "PATCH"}[g.n(5)])
-			} else {
+			case 2:
+				// the array notations of the same thing: method = {RequestMethod.GET}, value = {"/a", "/b"}, {}, {X,}
+				g.use("elementValue.array")
+				g.use("elementValue.mappingArray")
+				g.w("{")
+				n := g.n(4)
+				for j := 0; j < n; j++ {
+					if j > 0 {
+						g.w(",")
+					}
+					if key == "method" || g.chance(30) {
+						g.use("elementValue.qualifiedConstant")
+						if g.chance(70) {
+							g.w("RequestMethod")
+							g.glue(".")
+							g.glue([]string{"GET", "POST", "PUT", "DELETE", "PATCH"}[g.n(5)])
+						} else {
+							g.w([]string{"GET", "POST", "PUT"}[g.n(3)])
+						}
+					} else {
+						g.use("elementValue.constant")
+						g.use("literal.string")
+						g.w([]string{`"/p"`, `""`, `"/a/{id}"`, `"/"`, `"{x}"`}[g.n(5)])
+					}
+				}
+				if n == 0 {
+					g.use("elementValueArrayInitializer.empty")
+				}
+				if g.chance(20) {
+					g.use("elementValueArrayInitializer.trailingComma")
+					g.w(",")
+				}
+				g.w("}")
+			default:
 				g.elementValue()
 			}
 		}
@@ -649,6 +885,10 @@ func (g *gen) typeType(ann, arr bool) {
 		annotated = true
 		if g.annotation(true) {
 			kind = 0 // `pkg.@Ann Name`: the annotation qualifies a simple type name
+		}
+		for i := 0; i < 2 && g.chance(25); i++ {
+			g.use("typeType.severalAnnotations")
+			g.annotation(false)
 		}
 	}
 	if kind < 0 {
@@ -753,6 +993,10 @@ func (g *gen) refType(ann bool) {
 		annotated = true
 		if g.annotation(true) {
 			kind = 0
+		}
+		for i := 0; i < 2 && g.chance(25); i++ {
+			g.use("typeType.severalAnnotations")
+			g.annotation(false)
 		}
 	}
 	if kind < 0 {
